@@ -72,6 +72,17 @@ def dispatch (spec : Bool) (line : String) : String :=
   | "RUN" :: a => cmdRun spec false a
   | "RUNV" :: a => cmdRun spec true a
   | "EXEC" :: a => cmdExec spec a
+  | ["FLAGS", h] =>
+    match ofHex h with
+    | none => "bad-op"
+    | some m =>
+      let r := if spec then Spec.modifyFlags Gen.STANDARD_SCRIPT_VERIFY_FLAGS m else Model.parseFlags Gen.STANDARD_SCRIPT_VERIFY_FLAGS m
+      match r with
+      | none => "REJECT"
+      | some f =>
+        let names := if spec then (Flag.table.filter (fun p => f.testBit p.2)).map (fun p => (p.1.drop 14).toString)
+                     else (Model.svfString f).getD ["?"]
+        s!"OK {f} " ++ (if names.isEmpty then "(none)" else ",".intercalate names)
   | ["ERRSTR", n] => Gen.scriptErrString.getD n.toNat! "?"
   | "SESSION" :: a => cmdSession spec false a
   | "SESSIONV" :: a => cmdSession spec true a
